@@ -140,13 +140,14 @@ Proof.
 Qed.
 
 Section Frame.
+  Variable bd : str.
   Variable store : str -> N -> list ydoc.
 
-  Theorem load_frame_holds : load_frame store.
+  Theorem load_frame_holds : load_frame bd store.
   Proof.
     unfold load_frame. intros t1 t2 ts HL Hv.
     unfold cload_ts, loaded_files in HL.
-    destruct (load (ytree_of store t1) project_file) as [b1| | |] eqn:Eload; cbn [rbind] in HL; try discriminate.
+    destruct (load (ytree_of store t1) project_file bd) as [b1| | |] eqn:Eload; cbn [rbind] in HL; try discriminate.
     unfold rmap in HL.
     destruct (load_files _ (ytree_of store t1) [(project_file, None)] 0 []) as [[ds fs]| | |] eqn:ELF; cbn [rbind] in HL; try discriminate.
     injection HL as <-.
@@ -175,7 +176,7 @@ Section Frame.
       pose proof (NoDup_incl_length ND Hincl) as Hl. unfold akeys in Hl. rewrite !map_length in Hl. exact Hl. }
     assert (ELF3 : load_files (S (S (length (ytree_of store t2) * 8))) (ytree_of store t2) [(project_file, None)] 0 [] = Ok (ds, fs)).
     { apply (load_files_fuel _ _ _ _ _ _ _ ELF2). lia. }
-    assert (Eload2 : load (ytree_of store t2) project_file = load (ytree_of store t1) project_file).
+    assert (Eload2 : load (ytree_of store t2) project_file bd = load (ytree_of store t1) project_file bd).
     { unfold load. rewrite ELF3, ELF. reflexivity. }
     split; [|rewrite Eload2; exact Eload].
     unfold cload_ts, loaded_files. rewrite Eload2, Eload. cbn [rbind]. rewrite ELF3. unfold rmap. cbn [rbind snd].
